@@ -172,16 +172,16 @@ Definition ext_pkg_ok (p : string) : bool :=
   String.prefix "google.golang.org/protobuf/" p ||
   in_strs p ["bytes"; "encoding/base64"; "encoding/json"; "errors"; "fmt"; "math"; "math/bits"; "reflect";
              "sort"; "slices"; "maps"; "strconv"; "strings"; "sync"; "time"; "unicode"; "unicode/utf8"; "unicode/utf16";
-             "regexp"; "net/url"; "io";
+             "regexp"; "net/url"; "io"; "cmp"; "encoding/hex"; "math/big"; "path"; "html";
              "github.com/iancoleman/strcase"; "github.com/shopspring/decimal"; "github.com/google/uuid";
              "google.golang.org/grpc/status"; "google.golang.org/grpc/codes"].
 
-(* package-level variables of mutable kind: the default codecs, an error value, a compiled
-   pattern, read-only tables — all covered by (2); listed so that a new one is looked at *)
+(* package-level variables of mutable kind (error values apart: immutable): the default codecs,
+   a compiled pattern, read-only tables — all covered by (2); listed so that a new one is looked at *)
 Definition var_ok (v : string * string * bool) : bool :=
   match v with
   | (n, _, mut) => negb mut ||
-      in_strs n ["codec.Global"; "j5codec.Global"; "codec.errInvalidUTF8"; "id62.Pattern";
+      in_strs n ["codec.Global"; "j5codec.Global"; "id62.Pattern";
                  "j5schema.floatKinds"; "j5schema.intKinds"; "j5schema.wellKnownStringPatterns"]
   end.
 
